@@ -17,6 +17,15 @@ def run(tier, rep):
     n_rand = 60 if tier == "quick" else 1500
     progs += [p for p in fam_random.programs(n_rand, seed() + 909, depth=3 if tier == "quick" else 4)]
     cases, counts = famcheck.run_families("C09", rep, progs, "c09")
+    # ---- static relations on every path of every function: Lift -> ANF keeps the order of effects (IREffects.tla), dead-code
+    # elimination of the Go keeps every effect (Dce.tla; the pre-DCE program comes from the hook in go_file)
+    import passes, corpus
+    pc = [{"id": c["id"], "path": c["path"], "ident": c["ident"]} for c in cases]
+    pc += [{"id": "corpus:" + c["name"], "path": c["src"], "ident": "corpus:" + c["name"]} for c in corpus.single_file_cases() + corpus.package_cases()]
+    pst = passes.validate(pc, rep, "c09")
+    rep.coverage["pass_relations"] = pst
+    if pst["dce"]["programs"] < 100 or pst["anf_order"]["programs"] < 100 or pst["dce"]["effect_atoms"] < 1000:
+        raise ToolError(f"vacuity: pass relations evaluated on too little: {pst}")
     import c09go
     c09go.run(tier, rep)
     rep.coverage["traces_validated_against_impl"] = rep.coverage.get("disagreements_checked", 0) + rep.coverage.get("go_schedules_checked", 0)
